@@ -20,6 +20,47 @@ def pvgen(par_path, k=5):
     raise ToolError(f"pv gen produced no result for {par_path}: rc={r.returncode} {r.stderr[-500:]}")
 
 
+MULTI_ON = """%start S
+%title "t"
+%comment "c"
+%user_type U1 = my::A
+%user_type U2 = my::B
+%user_type U3 = my::C
+%nt_type T1 = my::N1
+%nt_type T2 = my::N2
+%nt_type T3 = my::N3
+%on T1 %enter M2
+%on T2 %push M3
+%on T3 %enter M2
+%on T4 %push M2
+%on T5 %enter M3
+%on T6 %push M3
+%skip T7, T8
+%scanner M2 {
+    %on T1 %enter INITIAL
+    %on T2 %pop
+    %on T3 %enter M3
+    %skip T7
+}
+%scanner M3 {
+    %on T4 %enter INITIAL
+    %on T5 %pop
+    %on T6 %enter M2
+    %skip T8
+}
+%%
+S: { T1 | T2 | T3 | T4 | T5 | T6 | T7 | T8 };
+T1: <INITIAL, M2>'t1';
+T2: <INITIAL, M2>'t2';
+T3: <INITIAL, M2>'t3';
+T4: <INITIAL, M2, M3>'t4';
+T5: <INITIAL, M3>'t5';
+T6: <INITIAL, M3>'t6';
+T7: <INITIAL, M2>'t7';
+T8: <INITIAL, M3>'t8';
+"""
+
+
 def c24(prop, tier, replay):
     from p_bnf import with_
     from p_misc import corpus_pars, naming_vectors
@@ -53,9 +94,12 @@ def c24(prop, tier, replay):
             spaces.append({"space": f"Gen_G Filter=tie ({name})", "vectors": k, "states": g["distinct"]})
         files = corpus_pars()
         step = 6 if tier == "quick" else 1
-        for f in files[::step]:
+        # grammars whose rendering iterates over maps: several %on directives per scanner state are always included
+        chosen = [f for i, f in enumerate(files) if i % step == 0 or open(f).read().count("%on ") >= 2]
+        for f in chosen:
             items.append((f, open(f).read()))
-        spaces.append({"space": "repository .par files", "vectors": len(files[::step])})
+        spaces.append({"space": "repository .par files (every %dth + all with >= 2 %%on directives)" % step, "vectors": len(chosen)})
+        items.append(("multi-on", MULTI_ON))
         for v in naming_vectors():
             items.append((v["id"], v["par"]))
     if not items:
@@ -109,7 +153,7 @@ REGISTRY = {"C24": c24}
 # ------------------------------------------------------------------------------------------------
 # C22 / C23: compile and run the generated code
 # ------------------------------------------------------------------------------------------------
-AST_FLAGS = ["lr", "clipA", "clipT", "memT", "memN", "opt", "rep", "grp", "nest", "allclip", "boxed", "range", "trim", "userT", "ntt"]
+AST_FLAGS = ["lr", "clipA", "clipT", "memT", "memN", "opt", "rep", "grp", "nest", "reprep", "cliponly", "allclip", "boxed", "range", "trim", "userT", "ntt"]
 
 
 def ast_template(on):
@@ -123,14 +167,21 @@ def ast_template(on):
         s += "%nt_type Num = crate::ut::Num\n"
     s += "%%\n"
     a = "A" + ("^" if "clipA" in on else "")
-    bpart = "{ [ 'y'" + c + " ] B }" if "nest" in on else ("{ B }" if "rep" in on else "B")
+    # reprep: a repetition written directly inside a single-alternative repetition, inner items distinguishable
+    bpart = "{ B { Z } 'w'" + c + " }" if "reprep" in on else ("{ [ 'y'" + c + " ] B }" if "nest" in on else ("{ B }" if "rep" in on else "B"))
     cc = "C" + ("@copt" if "memN" in on else "")
     cpart = f"[ {cc} ]" if "opt" in on else cc
     d = "'d'" + ("^" if c else ("@dee" if "memT" in on else ""))
     e = "'e'" + ("^" if (c or "clipT" in on) else "")
     dpart = f"( {d} | {e} )" if "grp" in on else d
-    s += f"S: {a} {bpart} {cpart} {dpart} Num;\n"
+    # cliponly: a production whose only member is a clipped non-terminal (its struct has no field at all)
+    tr = "Tr " if "cliponly" in on else ""
+    s += f"S: {a} {tr}{bpart} {cpart} {dpart} Num;\n"
+    if "cliponly" in on:
+        s += "Tr: Q^;\nQ: 'q';\n"
     s += f"A: 'a'{c};\nB: 'b'{c} 'x'{c};\nC: 'c'{c};\n"
+    if "reprep" in on:
+        s += f"Z: /z[0-9]/{c};\n"
     if "ntt" in on:
         s += f"Num: /[0-9]+/{c};\n"
     elif "userT" in on and not c:
@@ -139,15 +190,17 @@ def ast_template(on):
         s += f"Num: /[0-9]+/{c};\n"
     # sentences
     cases = []
-    nbs = [0, 1, 3] if ("rep" in on or "nest" in on) else [1]
+    nbs = [0, 1, 3] if ("rep" in on or "nest" in on or "reprep" in on) else [1]
     hcs = [False, True] if "opt" in on else [True]
     des = ["d", "e"] if "grp" in on else ["d"]
     for nb in nbs:
         for hc in hcs:
             for de in des:
-                for ys in ([False, True] if "nest" in on and nb else [False]):
+                for ys in ([False, True] if "nest" in on and "reprep" not in on and nb else [False]):
                     toks = ["a"]
                     exp = [] if ("clipA" in on or c) else ["a"]
+                    if "cliponly" in on:
+                        toks.append("q")
                     for i in range(nb):
                         if ys and i == 1 % max(nb, 1):
                             toks.append("y")
@@ -156,6 +209,11 @@ def ast_template(on):
                         toks += ["b", "x"]
                         if not c:
                             exp += ["b", "x"]
+                        if "reprep" in on:
+                            inner = [f"z{i}{j}"[:2] if False else f"z{(3 * i + j) % 10}" for j in range((2, 0, 3)[i % 3])]
+                            toks += inner + ["w"]
+                            if not c:
+                                exp += inner + ["w"]
                     if hc:
                         toks.append("c")
                         if not c:
